@@ -39,7 +39,7 @@ def classify_moment_violation(case, violation, recs, program):
     return None
 
 
-def classify_stage_violation(case, violation, stage, stages):
+def classify_stage_violation(case, violation, stage, stages, abstraction_explains=True):
     """K_ABSTRACT: the first pass after which the law differs is the one that replaced a condition over a continuous
     draw by an independent Bernoulli event (the joint law of the draw and the variables assigned under the condition
     changes by design)"""
@@ -55,7 +55,7 @@ def classify_stage_violation(case, violation, stage, stages):
                 return K_FLOAT_PARAM
         except ValueError:
             pass
-    if stage.extra.get("abstracted") and stage.name in ("ConditionsNormalizer", "ConditionsToArithm"):
+    if abstraction_explains and stage.extra.get("abstracted") and stage.name in ("ConditionsNormalizer", "ConditionsToArithm"):
         prev = [s for s in stages if s.index == stage.index - 1]
         if stage.name == "ConditionsNormalizer" or (prev and prev[0].extra.get("abstracted")):
             return K_ABSTRACT
